@@ -4,6 +4,7 @@ package checks
 
 import (
 	"fmt"
+	"os"
 	"path/filepath"
 	"strings"
 	"sync"
@@ -29,6 +30,7 @@ func raceUniverse() *fx.Universe {
 		raceUni, raceUniErr = fx.NewUniverse(filepath.Join(ev.ScratchDir(), "fxrace"), ev.RepoDir())
 		if raceUni != nil {
 			raceUni.Race = true
+			raceUniErr = raceUni.UsePrivateCache(filepath.Join(ev.ScratchDir(), "gocache-fxrace"), os.Getenv("VERIF_GOCACHE_BASE"))
 		}
 	})
 	if raceUniErr != nil {
